@@ -31,6 +31,9 @@
 (* L1: reported iff P # d and neither path(P) nor name(P) is in the union  *)
 (* of the lists.  Deviations: FirstLineOnly, NoNameMatch, NoDedup,         *)
 (* NoUnalias (a type reference spelled through an alias is invisible),     *)
+(* SamePosOnce (two reports at one expression start collapse into one),    *)
+(* MethodKeyWithoutType (the allow decision of a method is cached under    *)
+(* its bare name: S.PM decides for S2.PM and vice versa),                  *)
 (* ExportedOnly (items with unexported names do not cross packages),       *)
 (* TypeHidesMethods (the allow-list of an annotated type replaces the      *)
 (* lists of its methods).                                                  *)
@@ -39,12 +42,12 @@ EXTENDS Integers, Sequences, FiniteSets, TLC, Json
 
 CONSTANTS Mode, Deviations, Emit
 
-VARIABLES prog, fi, ci, ph, reported, diags
+VARIABLES prog, fi, ci, ph, reported, diags, memo    \* memo: the allow decision taken for the first method *named* PM (read by MethodKeyWithoutType only)
 
-vars == <<prog, fi, ci, ph, reported, diags>>
+vars == <<prog, fi, ci, ph, reported, diags, memo>>
 
 Shapes == {"none", "bare", "name", "path", "lastelem", "other", "two_in", "two_out", "dup"}
-Refs == {"callF", "funcValue", "methCall", "methCallPS", "methCallHidden", "typeVarHidden", "methCallVar", "methValue", "methCallPromoted", "methValuePromoted", "typeLit", "typeVar", "typeField", "typeParam", "typeResult",
+Refs == {"callF", "funcValue", "methCall", "methCallPS", "methCallS2", "chainCall", "methCallHidden", "typeVarHidden", "methCallVar", "methValue", "methCallPromoted", "methValuePromoted", "typeLit", "typeVar", "typeField", "typeParam", "typeResult",
          "typeLit2", "plain"}
 TypeRefs == {"typeLit", "typeVar", "typeField", "typeParam", "typeResult", "typeLit2"}
 HiddenRefs == {"methCallHidden", "typeVarHidden"}   \* d.Default.HM() on the unexported type hid; d.State, an exported alias of the unexported type state
@@ -84,14 +87,20 @@ Lines(al, P) ==
 
 Union(ls) == UNION {{ls[i][j] : j \in 1..Len(ls[i])} : i \in 1..Len(ls)}
 
-ShapeOf(r0, al) == LET r == Base(r0) IN IF r = "typeLit2" THEN "bare" ELSE IF r = "plain" THEN "none" ELSE al
+\* methCallS2: s2.PM() - a method called PM like S.PM, on another type S2, restricted to d itself (bare @packageonly)
+\* chainCall: d.NewPS().PSM() - two references in one expression: the function NewPS and the method PSM, both with shape al
+ShapeOf(r0, al) == LET r == Base(r0) IN IF r \in {"typeLit2", "methCallS2"} THEN "bare" ELSE IF r = "plain" THEN "none" ELSE al
 
 Allowed(P, ls) == P = "d" \/ PathOf(P) \in Union(ls) \/ NameOf(P) \in Union(ls)
 
 CodeOf(r0) == LET r == Base(r0) IN
-             CASE r \in {"callF", "funcValue"} -> "PKGO02" [] r \in {"methCall", "methCallPS", "methCallHidden", "methCallVar", "methValue", "methCallPromoted", "methValuePromoted"} -> "PKGO03"
+             CASE r \in {"callF", "funcValue"} -> "PKGO02" [] r = "chainCall" -> "PKGO03"
+               [] r \in {"methCall", "methCallPS", "methCallS2", "methCallHidden", "methCallVar", "methValue", "methCallPromoted", "methValuePromoted"} -> "PKGO03"
                [] r \in TypeRefs \cup {"typeVarHidden"} -> "PKGO01" [] OTHER -> "none"
 
+\* the second reference of an expression with two references
+Code2Of(r) == IF r = "chainCall" THEN "PKGO02" ELSE "none"
+Cand2(r, al, P) == IF Code2Of(r) # "none" /\ ShapeOf(r, al) # "none" /\ ~Allowed(P, Lines(ShapeOf(r, al), P)) THEN Code2Of(r) ELSE "none"
 Cand(r, al, P) == IF ShapeOf(r, al) # "none" /\ CodeOf(r) # "none" /\ ~Allowed(P, Lines(ShapeOf(r, al), P)) THEN CodeOf(r) ELSE "none"
 
 TypeOf(r) == IF Base(r) = "typeLit2" THEN "PT2" ELSE IF r = "typeVarHidden" THEN "state" ELSE "PT"
@@ -103,8 +112,9 @@ Reported(p, f, i) ==
   IN /\ code # "none"
      /\ (code = "PKGO01" => \A j \in 1..(i - 1) : ~(Cand(p.files[f][j], p.al, p.pkg) = "PKGO01" /\ TypeOf(p.files[f][j]) = TypeOf(r)))
 L1(p) == {<<k[1], k[2], Cand(p.files[k[1]][k[2]], p.al, p.pkg)>> : k \in {k \in Keys(p) : Reported(p, k[1], k[2])}}
+         \cup {<<k[1], k[2], Cand2(p.files[k[1]][k[2]], p.al, p.pkg)>> : k \in {k \in Keys(p) : Cand2(p.files[k[1]][k[2]], p.al, p.pkg) # "none"}}
 
-SeqRefs == {"typeLit", "typeVar", "typeParam", "typeLit2", "callF", "methCall", "methCallPS", "methCallVar", "typeVarHidden"}
+SeqRefs == {"typeLit", "typeVar", "typeParam", "typeLit2", "callF", "methCall", "methCallPS", "methCallS2", "methCallVar", "typeVarHidden"}
 
 InitProg ==
   \/ /\ Mode = "single"
@@ -122,7 +132,7 @@ InitProg ==
 
 Init == /\ InitProg
         /\ fi = 1 /\ ci = 0 /\ ph = "begin"
-        /\ reported = {}
+        /\ reported = {} /\ memo = "none"
         /\ diags = {}
 
 CurR == prog.files[fi][ci]
@@ -131,7 +141,7 @@ BeginFile ==
   /\ ph = "begin"
   /\ reported' = {}
   /\ ci' = 1 /\ ph' = "visit"
-  /\ UNCHANGED <<prog, fi, diags>>
+  /\ UNCHANGED <<prog, fi, diags, memo>>
 
 \* the attachment index: every line of every annotation contributes its packages (plus the declaring package)
 IndexLines(sh, P) == IF "FirstLineOnly" \in Deviations /\ Len(Lines(sh, P)) > 1 THEN <<Lines(sh, P)[1]>> ELSE Lines(sh, P)
@@ -141,22 +151,35 @@ Visit ==
   /\ ph = "visit"
   /\ LET r == CurR
          sh == ShapeOf(r, prog.al)
-         code == IF "NoUnalias" \in Deviations /\ ViaAlias(r) THEN "none"
+         pmRef == r \in {"methCall", "methCallVar", "methValue", "methCallPromoted", "methValuePromoted", "methCallS2"}
+         own == IF sh = "none" \/ IndexAllowed(prog.pkg, IndexLines(sh, prog.pkg)) THEN "allow" ELSE "deny"
+         decided == IF memo = "none" THEN own ELSE memo
+         code == IF "MethodKeyWithoutType" \in Deviations /\ pmRef THEN (IF decided = "deny" THEN "PKGO03" ELSE "none")
+                 ELSE IF "NoUnalias" \in Deviations /\ ViaAlias(r) THEN "none"
                  ELSE IF "TypeHidesMethods" \in Deviations /\ r = "methCallPS" THEN "none"
                  ELSE IF "ExportedOnly" \in Deviations /\ r \in HiddenRefs /\ prog.pkg # "d" THEN "none"
                  ELSE IF sh # "none" /\ CodeOf(r) # "none" /\ ~IndexAllowed(prog.pkg, IndexLines(sh, prog.pkg)) THEN CodeOf(r) ELSE "none"
-     IN IF code = "none" THEN UNCHANGED <<reported, diags>>
+         \* SamePosOnce: two diagnostics anchored at the same expression start are reported once (the later one is dropped)
+         code2 == IF Code2Of(r) = "none" \/ sh = "none" \/ IndexAllowed(prog.pkg, IndexLines(sh, prog.pkg)) \/ ("SamePosOnce" \in Deviations /\ code # "none")
+                  THEN "none" ELSE Code2Of(r)
+         second == IF code2 = "none" THEN {} ELSE {<<fi, ci, code2>>}
+     IN IF code = "none" THEN diags' = diags \cup second /\ UNCHANGED reported
         ELSE IF code = "PKGO01" /\ ~("NoDedup" \in Deviations)
           THEN IF TypeOf(r) \in reported THEN UNCHANGED <<reported, diags>>
                ELSE reported' = reported \cup {TypeOf(r)} /\ diags' = diags \cup {<<fi, ci, code>>}
-        ELSE diags' = diags \cup {<<fi, ci, code>>} /\ UNCHANGED reported
+        ELSE diags' = diags \cup {<<fi, ci, code>>} \cup second /\ UNCHANGED reported
+  /\ memo' = (LET r == CurR
+                   sh == ShapeOf(r, prog.al)
+                   pmRef == r \in {"methCall", "methCallVar", "methValue", "methCallPromoted", "methValuePromoted", "methCallS2"}
+                   own == IF sh = "none" \/ IndexAllowed(prog.pkg, IndexLines(sh, prog.pkg)) THEN "allow" ELSE "deny"
+               IN IF pmRef /\ memo = "none" THEN own ELSE memo)
   /\ IF ci < Len(prog.files[fi]) THEN ci' = ci + 1 /\ ph' = "visit" ELSE ci' = ci /\ ph' = "endfile"
   /\ UNCHANGED <<prog, fi>>
 
 EndFile ==
   /\ ph = "endfile"
   /\ IF fi < Len(prog.files) THEN fi' = fi + 1 /\ ci' = 0 /\ ph' = "begin" ELSE fi' = fi /\ ci' = ci /\ ph' = "done"
-  /\ UNCHANGED <<prog, reported, diags>>
+  /\ UNCHANGED <<prog, reported, diags, memo>>
 
 Finished == ph = "done" /\ UNCHANGED vars
 
@@ -168,7 +191,7 @@ Done == ph = "done"
 Termination == <>Done
 
 Exact == Done => diags = L1(prog)
-NoAnnNoDiag == (Done /\ prog.al = "none" /\ \A f \in 1..Len(prog.files) : \A i \in 1..Len(prog.files[f]) : prog.files[f][i] # "typeLit2") => diags = {}
+NoAnnNoDiag == (Done /\ prog.al = "none" /\ \A f \in 1..Len(prog.files) : \A i \in 1..Len(prog.files[f]) : prog.files[f][i] \notin {"typeLit2", "methCallS2"}) => diags = {}
 OwnPackageFree == (Done /\ prog.pkg = "d") => diags = {}
 Stable == [][prog' = prog /\ diags \subseteq diags']_vars
 
